@@ -3,6 +3,7 @@ package gateway
 import (
 	"errors"
 	"fmt"
+	"net/http"
 	"strings"
 
 	"github.com/vektah/gqlparser/v2"
@@ -1002,8 +1003,11 @@ func (p *Planner) GetQueryer(ctx *PlanningContext, url string) graphql.Queryer {
 		return (*p.QueryerFactory)(ctx, url)
 	}
 
-	// return the queryer for the url
-	return graphql.NewSingleRequestQueryer(url)
+	// return the queryer for the url. A network queryer without an http client creates one when it sends its
+	// first request, and it does so without any synchronization. The queryer of a step is used by many goroutines
+	// at the same time (one for every object of a list the step hangs off, one for every request that shares a
+	// cached plan) so it is handed its client here instead.
+	return graphql.NewSingleRequestQueryer(url).WithHTTPClient(&http.Client{})
 }
 
 func plannerBuildQuery(ctx *PlanningContext, operationName, parentType string, variables ast.VariableDefinitionList, selectionSet ast.SelectionSet, fragmentDefinitions ast.FragmentDefinitionList) *ast.QueryDocument {
